@@ -99,6 +99,20 @@ func (e *Engine) intercept(fn *ssa.Function, args []Value) (Value, bool) {
 		}
 		e.tickers[l] = c
 		e.tickerPeriod = append(e.tickerPeriod, d)
+		if e.precise {
+			// first tick: one period after creation (plus jitter)
+			e.clockInit()
+			c.period = d
+			nd := e.nondetInt("due", 64, true)
+			base := e.binopInt(token.ADD, e.path.now, d, 64, true).(*Term)
+			e.addPC(e.binopInt(token.LEQ, base, nd, 64, true).(*Term))
+			lim := base
+			if e.latency != nil {
+				lim = e.binopInt(token.ADD, base, e.latency, 64, true).(*Term)
+			}
+			e.addPC(e.binopInt(token.LEQ, nd, lim, 64, true).(*Term))
+			c.nextDue = nd
+		}
 		return PtrV{l}, true
 	case "(*time.Ticker).Reset":
 		e.stub(key)
@@ -108,6 +122,20 @@ func (e *Engine) intercept(fn *ssa.Function, args []Value) (Value, bool) {
 		e.tracef("ticker.Reset")
 		if c := e.tickers[args[0].(PtrV).L]; c != nil {
 			c.stopped = false
+			if e.precise {
+				e.clockInit()
+				d := args[1].(*Term)
+				c.period = d
+				nd := e.nondetInt("due", 64, true)
+				base := e.binopInt(token.ADD, e.path.now, d, 64, true).(*Term)
+				e.addPC(e.binopInt(token.LEQ, base, nd, 64, true).(*Term))
+				lim := base
+				if e.latency != nil {
+					lim = e.binopInt(token.ADD, base, e.latency, 64, true).(*Term)
+				}
+				e.addPC(e.binopInt(token.LEQ, nd, lim, 64, true).(*Term))
+				c.nextDue = nd
+			}
 		}
 		return nil, true
 	case "(*time.Ticker).Stop":
@@ -601,6 +629,17 @@ func (e *Engine) intrinsic(name string, fn *ssa.Function, args []Value) (Value, 
 		for i := 0; i < sl.Len; i++ {
 			e.termWatch[chanOf(e.load(sl.B.cells[sl.Off+i]))] = true
 		}
+		return nil, true
+	case "vPreciseTime": // periodic tickers and timed arrivals against the symbolic clock (C10 bounded runs)
+		e.precise = true
+		return nil, true
+	case "vParkAt": // a producer offers the value from instant t on
+		c := chanOf(args[0])
+		for len(c.parkedAt) < len(c.parked) {
+			c.parkedAt = append(c.parkedAt, nil)
+		}
+		c.parked = append(c.parked, unwrapAny(args[1]))
+		c.parkedAt = append(c.parkedAt, args[2].(*Term))
 		return nil, true
 	case "vDecline":
 		e.declined = true
